@@ -213,3 +213,170 @@ package vm
 //@ func (evm *EVM) ChainConfig() (c *params.ChainConfig)
 //@   serves C31
 //@   ensures c == evm.chainConfig
+
+// ---------------------------------------------------------------------------
+// C29 / C31 / C27: frame functions (core/vm/evm.go)
+//
+// Ghost state of one frame activation:
+//   hasSnap, snap : a snapshot was taken and its id
+//   dirty         : the world state was (possibly) mutated since the snapshot and not reverted to it
+//   early         : a mutating call happened before any snapshot was taken
+// Clause "err != nil ==> !dirty": every failing exit has rolled the state back to the
+// snapshot taken at frame entry. That RevertToSnapshot restores everything is a property
+// of the state database journal and is not proved here.
+// ---------------------------------------------------------------------------
+
+//@ directive pure-observer core/vm.StateDB).Exist
+//@ directive pure-observer core/vm.StateDB).Empty
+//@ directive pure-observer core/vm.StateDB).GetNonce
+//@ directive pure-observer core/vm.StateDB).GetCodeHash
+//@ directive pure-observer core/vm.StateDB).GetCode
+//@ directive pure-observer core/vm.StateDB).GetBalance
+//@ directive pure-observer funcfield:BlockContext.CanTransfer
+//@ directive pure-observer (*github.com/ethereum/go-ethereum/core/tracing.Hooks).HasGasHook
+//@ directive noeffect (*github.com/ethereum/go-ethereum/core/tracing.Hooks).
+//@ directive noeffect vm.EVM).captureBegin
+//@ directive noeffect vm.EVM).captureEnd
+//@ directive noeffect core/vm.isSystemCall
+//@ directive noeffect vm.EVM).precompile
+//@ directive noeffect vm.EVM).resolveCode
+//@ directive noeffect core/vm.isEIP7610RejectedAccount
+//@ directive readonly-args core/vm.PrecompiledContract).RequiredGas
+//@ directive readonly-args core/vm.PrecompiledContract).Run
+//@ directive readonly-args funcfield:BlockContext.Transfer
+//@ directive readonly-args core/vm.precompileCacheKey
+//@ directive readonly-args vm.PrecompileCache).load
+//@ directive readonly-args vm.PrecompileCache).store
+
+// A frame budget as produced by Forward / NewGasBudget: nothing used yet.
+//@ pure func freshBudget(g GasBudget) bool { return g.UsedExecutionGas == 0 && g.UsedStateGas == 0 && g.Spilled == 0 && g.ExecutionGas <= TMAX() && g.StateGas <= TMAX() }
+
+//@ func NewContract(caller common.Address, address common.Address, value *uint256.Int, gas GasBudget, jumpDests JumpDestCache) (c *Contract)
+//@   serves C29 C31
+//@   nilable value
+//@   ensures isfresh(c) && c.Gas == gas && c.value == value && c.IsDeployment == false && c.IsSystemCall == false
+
+//@ func (c *Contract) SetCallCode(hash common.Hash, code []byte)
+//@   serves C29 C31
+//@   ensures c.Code == code && c.CodeHash == hash
+//@   modifies c.Code, c.CodeHash
+
+// The interpreter loop: assumed to conserve the frame budget it is given (K1 and K2).
+//@ func (evm *EVM) Run(contract *Contract, input []byte, readOnly bool) (ret []byte, err error)
+//@   serves C29 C31
+//@   trusted interpreter loop (jump-table dispatch over ~150 opcodes) is outside the verified subset; assumed to conserve K1 and K2 of the frame budget, as every opcode charges through the GasBudget methods verified under C31
+//@   requires ranged(contract.Gas)
+//@   modifies contract.Gas, contract.Input, evm.depth, evm.readOnly, evm.returnData
+//@   mutates
+//@   ensures K1(contract.Gas) == old(K1(contract.Gas)) && K2(contract.Gas) == old(K2(contract.Gas)) && ranged(contract.Gas)
+
+//@ func (evm *EVM) initNewContract(contract *Contract, address common.Address) (ret []byte, err error)
+//@   serves C29 C31
+//@   trusted runs the init code through the interpreter (see Run) and charges code-deposit gas through the GasBudget methods
+//@   requires ranged(contract.Gas)
+//@   modifies contract.Gas, contract.Input, evm.depth, evm.readOnly, evm.returnData
+//@   mutates
+//@   ensures K1(contract.Gas) == old(K1(contract.Gas)) && K2(contract.Gas) == old(K2(contract.Gas)) && ranged(contract.Gas)
+
+//@ func RunPrecompiledContract(stateDB StateDB, p PrecompiledContract, address common.Address, input []byte, gas GasBudget, logger *tracing.Hooks, rules params.Rules, cache *PrecompileCache) (ret []byte, remaining GasBudget, err error)
+//@   serves C29 C31
+//@   nilable logger, cache
+//@   requires ranged(gas)
+//@   mutates
+//@   ensures K1(remaining) == K1(gas) && K2(remaining) == K2(gas) && ranged(remaining)
+//@   ensures remaining.StateGas == gas.StateGas && remaining.UsedStateGas == gas.UsedStateGas && remaining.Spilled == gas.Spilled
+//@   modifies *cache
+
+//@ func (evm *EVM) createFramePreCheck(caller common.Address, value *uint256.Int) (err error)
+//@   serves C29
+//@   ensures err == nil ==> evm.depth <= 1024
+
+//@ func (evm *EVM) Call(caller common.Address, addr common.Address, input []byte, gas GasBudget, value *uint256.Int) (ret []byte, result GasBudget, err error)
+//@   serves C29 C31 C27
+//@   requires freshBudget(gas)
+//@   ghostvar hasSnap bool = false
+//@   ghostvar snap int = 0
+//@   ghostvar dirty bool = false
+//@   ghostvar early bool = false
+//@   oncall Snapshot: hasSnap = true; snap = result; dirty = false
+//@   oncall RevertToSnapshot: dirty = dirty && !(hasSnap && arg1 == snap)
+//@   oncall CreateAccount CreateContract SetNonce SetCode SetState SetTransientState AddBalance SubBalance SelfDestruct SelfDestruct6780 AddLog AddRefund SubRefund Touch Transfer Run RunPrecompiledContract initNewContract: dirty = true; early = early || !hasSnap
+//@   ensures err != nil ==> !dirty
+//@   ensures !early
+//@   ensures K1(result) == K1(gas) && K2(result) == K2(gas)
+//@   ensures err != nil ==> result.StateGas == gas.StateGas && result.UsedStateGas == 0 && result.Spilled == 0
+//@   ensures err != nil && err != ErrExecutionReverted && err != ErrDepth && err != ErrInsufficientBalance ==> result.ExecutionGas == 0
+//@   modifies evm.depth, evm.readOnly, evm.returnData, *evm.AccessEvents, *evm.precompileCache
+//@   mutates
+
+//@ func (evm *EVM) CallCode(caller common.Address, addr common.Address, input []byte, gas GasBudget, value *uint256.Int) (ret []byte, result GasBudget, err error)
+//@   serves C29 C31 C27
+//@   requires freshBudget(gas)
+//@   ghostvar hasSnap bool = false
+//@   ghostvar snap int = 0
+//@   ghostvar dirty bool = false
+//@   ghostvar early bool = false
+//@   oncall Snapshot: hasSnap = true; snap = result; dirty = false
+//@   oncall RevertToSnapshot: dirty = dirty && !(hasSnap && arg1 == snap)
+//@   oncall SetNonce CreateAccount CreateContract SetCode SetState SetTransientState AddBalance SubBalance SelfDestruct SelfDestruct6780 AddLog AddRefund SubRefund Touch Transfer Run RunPrecompiledContract initNewContract: dirty = true; early = early || !hasSnap
+//@   ensures err != nil ==> !dirty
+//@   ensures !early
+//@   ensures K1(result) == K1(gas) && K2(result) == K2(gas)
+//@   ensures err != nil ==> result.StateGas == gas.StateGas && result.UsedStateGas == 0 && result.Spilled == 0
+//@   modifies evm.depth, evm.readOnly, evm.returnData, *evm.AccessEvents, *evm.precompileCache
+//@   mutates
+
+//@ func (evm *EVM) DelegateCall(originCaller common.Address, caller common.Address, addr common.Address, input []byte, gas GasBudget, value *uint256.Int) (ret []byte, result GasBudget, err error)
+//@   serves C29 C31 C27
+//@   requires freshBudget(gas)
+//@   ghostvar hasSnap bool = false
+//@   ghostvar snap int = 0
+//@   ghostvar dirty bool = false
+//@   ghostvar early bool = false
+//@   oncall Snapshot: hasSnap = true; snap = result; dirty = false
+//@   oncall RevertToSnapshot: dirty = dirty && !(hasSnap && arg1 == snap)
+//@   oncall SetNonce CreateAccount CreateContract SetCode SetState SetTransientState AddBalance SubBalance SelfDestruct SelfDestruct6780 AddLog AddRefund SubRefund Touch Transfer Run RunPrecompiledContract initNewContract: dirty = true; early = early || !hasSnap
+//@   ensures err != nil ==> !dirty
+//@   ensures !early
+//@   ensures K1(result) == K1(gas) && K2(result) == K2(gas)
+//@   ensures err != nil ==> result.StateGas == gas.StateGas && result.UsedStateGas == 0 && result.Spilled == 0
+//@   modifies evm.depth, evm.readOnly, evm.returnData, *evm.AccessEvents, *evm.precompileCache
+//@   mutates
+
+//@ func (evm *EVM) StaticCall(caller common.Address, addr common.Address, input []byte, gas GasBudget) (ret []byte, result GasBudget, err error)
+//@   serves C29 C31 C27
+//@   requires freshBudget(gas)
+//@   ghostvar hasSnap bool = false
+//@   ghostvar snap int = 0
+//@   ghostvar dirty bool = false
+//@   ghostvar early bool = false
+//@   oncall Snapshot: hasSnap = true; snap = result; dirty = false
+//@   oncall RevertToSnapshot: dirty = dirty && !(hasSnap && arg1 == snap)
+//@   oncall SetNonce CreateAccount CreateContract SetCode SetState SetTransientState AddBalance SubBalance SelfDestruct SelfDestruct6780 AddLog AddRefund SubRefund Touch Transfer Run RunPrecompiledContract initNewContract: dirty = true; early = early || !hasSnap
+//@   ensures err != nil ==> !dirty
+//@   ensures !early
+//@   ensures K1(result) == K1(gas) && K2(result) == K2(gas)
+//@   ensures err != nil ==> result.StateGas == gas.StateGas && result.UsedStateGas == 0 && result.Spilled == 0
+//@   modifies evm.depth, evm.readOnly, evm.returnData, *evm.AccessEvents, *evm.precompileCache
+//@   mutates
+
+// create: the caller's nonce bump and the access-list warm-up happen before the snapshot on
+// purpose (they survive a failed creation); everything after the snapshot must be rolled back
+// on failure, except that pre-Homestead a code-store out-of-gas is treated as success.
+//@ func (evm *EVM) create(caller common.Address, code []byte, gas GasBudget, value *uint256.Int, address common.Address, typ OpCode) (ret []byte, createAddress common.Address, result GasBudget, err error)
+//@   serves C29 C31 C27
+//@   requires freshBudget(gas)
+//@   ghostvar hasSnap bool = false
+//@   ghostvar snap int = 0
+//@   ghostvar dirty bool = false
+//@   ghostvar early bool = false
+//@   oncall Snapshot: hasSnap = true; snap = result; dirty = false
+//@   oncall RevertToSnapshot: dirty = dirty && !(hasSnap && arg1 == snap)
+//@   oncall SetNonce: dirty = dirty || hasSnap
+//@   oncall CreateAccount CreateContract SetCode SetState SetTransientState AddBalance SubBalance SelfDestruct SelfDestruct6780 AddLog AddRefund SubRefund Touch Transfer Run RunPrecompiledContract initNewContract: dirty = true; early = early || !hasSnap
+//@   ensures err != nil && (evm.chainRules.IsHomestead || err != ErrCodeStoreOutOfGas) ==> !dirty
+//@   ensures !early
+//@   ensures K1(result) == K1(gas) && K2(result) == K2(gas)
+//@   ensures err != nil && (evm.chainRules.IsHomestead || err != ErrCodeStoreOutOfGas) ==> result.StateGas == gas.StateGas && result.UsedStateGas == 0 && result.Spilled == 0
+//@   modifies evm.depth, evm.readOnly, evm.returnData, *evm.AccessEvents, *evm.precompileCache
+//@   mutates
